@@ -13,19 +13,22 @@
 //     GLYPHS   the variable charstrings, HEX,HEX,..
 //     HMTX     aw:lsb,aw:lsb,..
 //     HVAR     - or REGIONS#IVDS#ADVMAPHEX#LSBMAPHEX  (formats of mode `iv`, as in mode `e2e`)
+//     optionally two more fields (older lines end at HVAR):
+//     MVAR     - or REGIONS#IVDS#tag,outer,inner;..#0      (as in mode `e2e`; no vhea)
+//     VALS     the 28 MVAR-controlled source values in the order of process_mvar's arms
 //   c2f|FONT|USER 16.16 raw csv|NORM|AC:REGIONS|..|HVAR
 //     the fields after NORM are sliced from the font file by this harness (own walk over the sfnt
 //     directory, the CFF2 header / DICTs / INDEXes / FDSelect / VariationStore and HVAR);
 //     NORM is the normalised tuple (fvar/avar: property C13).  The run re-reads the font file.
-//   result: ok:T=k1,..;TAGS=t1,..;VS=0|1;CS=HEX,HEX,..;O=outline/outline/..;H=aw:lsb,..
+//   result: ok:T=k1,..;TAGS=t1,..;VS=0|1;CS=HEX,HEX,..;O=outline/outline/..;H=aw:lsb,..;M=v1,..,v28
 //             CS  the charstrings of the instance's CFF2 table
 //             O   per glyph, what CFF2Outlines (no tuple) draws from the instance:
 //                 ok:Mx,y Lx,y Cx1,y1,x2,y2,x,y Z ..  |  er:Name
 //             VS  1 when the instance's CFF2 table still has a VariationStore
 //           | err:E | err:cff-E | err:write | err:other | bad:why | panic
 use super::e2e::{
-    cmap_bytes, font_bytes, gen_map_bytes, head_bytes, hhea_like, hvar_bytes, name_bytes, opt_hex, os2_bytes,
-    post_bytes, rng_below, sfnt_tables, t, tbl, u16at, u32at, Prov,
+    cmap_bytes, font_bytes, gen_map_bytes, head_bytes, hhea_like, hvar_bytes, mvar_bytes, name_bytes, opt_hex,
+    os2_bytes, post_bytes, rng_below, sfnt_tables, t, tbl, u16at, u32at, Prov, FIELDS, MVAR_TAGS,
 };
 use super::*;
 use allsorts::cff::cff2::CFF2;
@@ -52,6 +55,8 @@ pub struct C2 {
     pub glyphs: Vec<Vec<u8>>,
     pub hmtx: Vec<(u16, i16)>,
     pub hvar: String,
+    pub mvar: String,
+    pub vals: Vec<i64>,
 }
 
 fn fmt_list(l: &[Vec<u8>]) -> String {
@@ -82,7 +87,7 @@ pub fn fmt_spec(c: &C2) -> String {
         .collect();
     let hm: Vec<String> = c.hmtx.iter().map(|(a, l)| format!("{}:{}", a, l)).collect();
     format!(
-        "{}:{}|{}|{}|{}|{}|{}|{}|{}|{}",
+        "{}:{}|{}|{}|{}|{}|{}|{}|{}|{}|{}|{}",
         c.ac,
         join(&rs, ";"),
         if ivds.is_empty() { "-".to_string() } else { ivds.join("/") },
@@ -92,7 +97,9 @@ pub fn fmt_spec(c: &C2) -> String {
         join(&c.fdsel, ","),
         fmt_list(&c.glyphs),
         hm.join(","),
-        c.hvar
+        c.hvar,
+        if c.mvar.is_empty() { "-" } else { c.mvar.as_str() },
+        join(&c.vals, ",")
     )
 }
 
@@ -123,6 +130,8 @@ pub fn parse_spec(p: &[&str], base: usize) -> C2 {
                 .collect()
         },
         hvar: p[base + 8].to_string(),
+        mvar: p.get(base + 9).map(|s| s.to_string()).unwrap_or_else(|| "-".to_string()),
+        vals: p.get(base + 10).map(|s| csv_i::<i64>(s)).unwrap_or_default(),
     }
 }
 
@@ -321,18 +330,50 @@ pub fn c2_font(c: &C2) -> Vec<(u32, Vec<u8>)> {
         be16(&mut hmtx, aw);
         hmtx.extend_from_slice(&lsb.to_be_bytes());
     }
+    let mut os2 = os2_bytes();
+    let mut hhea = hhea_like(n as u16);
+    let mut post = post_bytes();
+    for (i, (tb, off)) in FIELDS.iter().enumerate() {
+        if let Some(val) = c.vals.get(i) {
+            let b = (*val as u16).to_be_bytes();
+            let d = match tb {
+                0 => &mut os2,
+                2 => &mut hhea,
+                3 => &mut post,
+                _ => continue,
+            };
+            d[*off] = b[0];
+            d[*off + 1] = b[1];
+        }
+    }
     let mut tables: Vec<(u32, Vec<u8>)> = vec![
         (t(b"CFF2"), build_cff2(c)),
-        (t(b"OS/2"), os2_bytes()),
+        (t(b"OS/2"), os2),
         (t(b"cmap"), cmap_bytes()),
         (t(b"fvar"), fvar_bytes(c.ac)),
         (t(b"head"), head_bytes()),
-        (t(b"hhea"), hhea_like(n as u16)),
+        (t(b"hhea"), hhea),
         (t(b"hmtx"), hmtx),
         (t(b"maxp"), maxp05_bytes(n as u16)),
         (t(b"name"), name_bytes()),
-        (t(b"post"), post_bytes()),
+        (t(b"post"), post),
     ];
+    if c.mvar != "-" && !c.mvar.is_empty() {
+        let m: Vec<&str> = c.mvar.split('#').collect();
+        let (mac, regs) = parse_regions(m[0]);
+        let ivs = ivs_bytes(mac, &regs, &parse_ivds(m[1]));
+        let recs: Vec<(u32, u16, u16)> = if m[2] == "-" {
+            vec![]
+        } else {
+            m[2].split(';')
+                .map(|r| {
+                    let f = csv_i::<u32>(r);
+                    (f[0], f[1] as u16, f[2] as u16)
+                })
+                .collect()
+        };
+        tables.push((t(b"MVAR"), mvar_bytes(&ivs, &recs)));
+    }
     if c.hvar != "-" {
         let h: Vec<&str> = c.hvar.split('#').collect();
         let (hac, regs) = parse_regions(h[0]);
@@ -433,14 +474,34 @@ fn describe_instance(data: &[u8], tuple: &[i16]) -> Result<String, String> {
         let m = hmtx.metric(gid as u16).map_err(|e| format!("out-metric{}-{}", gid, perr(&e)))?;
         hs.push(format!("{}:{}", m.advance_width, m.lsb));
     }
+    let os2 = rd(b"OS/2")?;
+    let post = rd(b"post")?;
+    let vhea = prov.read_table_data(t(b"vhea")).ok().map(|c| c.into_owned());
+    let mut vals = vec![];
+    for (i, (tb, off)) in FIELDS.iter().enumerate() {
+        let src: Option<&Vec<u8>> = match tb {
+            0 => Some(&os2),
+            1 => vhea.as_ref(),
+            2 => Some(&hhea_d),
+            _ => Some(&post),
+        };
+        match src {
+            Some(d) if d.len() >= off + 2 => {
+                let raw = u16::from_be_bytes([d[*off], d[*off + 1]]);
+                vals.push(if i == 3 || i == 4 { raw.to_string() } else { (raw as i16).to_string() });
+            }
+            _ => vals.push("x".to_string()),
+        }
+    }
     Ok(format!(
-        "T={};TAGS={};VS={};CS={};O={};H={}",
+        "T={};TAGS={};VS={};CS={};O={};H={};M={}",
         join(tuple, ","),
         join(&tags, ","),
         cff2.vstore.is_some() as u8,
         cs.join(","),
         os.join("/"),
-        hs.join(",")
+        hs.join(","),
+        vals.join(",")
     ))
 }
 
@@ -908,6 +969,24 @@ pub fn gen_c2(rng: &mut Rng) -> String {
         "-".to_string()
     };
 
+    let mut vals: Vec<i64> = (0..28).map(|_| rng.range(-900, 900)).collect();
+    vals[0] = rng.range(500, 1200);
+    vals[1] = rng.range(-500, 0);
+    vals[3] = rng.range(0, 2000);
+    vals[4] = rng.range(0, 2000);
+    let mvar = if rng.chance(1, 4) {
+        let (rs, ivs, regs, nivd) = gen_ivs(rng, ac, 4, true);
+        for r in regs.chunks(ac) {
+            all_axes.push(r.to_vec());
+        }
+        let mut idx: Vec<usize> = (0..28).filter(|i| rng.chance(1, 4) && FIELDS[*i].0 != 1).collect();
+        idx.sort_by_key(|i| t(MVAR_TAGS[*i]));
+        let recs: Vec<String> = idx.iter().map(|i| format!("{},{},{}", t(MVAR_TAGS[*i]), rng.below(nivd as u64), rng.below(4))).collect();
+        format!("{}#{}#{}#0", rs, ivs, if recs.is_empty() { "-".to_string() } else { recs.join(";") })
+    } else {
+        "-".to_string()
+    };
+
     let user: Vec<i64> = (0..ac)
         .map(|k| match rng.below(10) {
             0 => *rng.pick(&[0i64, 16384, -16384, 16385, -16385, 20000, -30000, 8192]),
@@ -940,6 +1019,8 @@ pub fn gen_c2(rng: &mut Rng) -> String {
         glyphs,
         hmtx,
         hvar,
+        mvar,
+        vals,
     };
     format!("c2|{}|{}", join(&user, ","), fmt_spec(&c))
 }
@@ -1159,7 +1240,56 @@ fn extract_cff2(ts: &[(u32, Vec<u8>)]) -> Option<C2> {
             format!("{}:{}#{}#{}#{}", hac, join(&rs, ";"), ds.join("/"), mp(u32at(h, 8) as usize)?, mp(u32at(h, 12) as usize)?)
         }
     };
-    Some(C2 { ac, regions, ivds: ivds.into_iter().map(|x| x.2).collect(), vsdef, gsubrs, fds, fdsel, glyphs, hmtx, hvar })
+    // MVAR and the values it controls
+    let ivs_str = |regs: &[(i16, i16, i16)], ivds: &[(u16, u16, Vec<u16>, Vec<u8>)]| -> (String, String) {
+        let rs: Vec<String> = regs.iter().map(|(s, p, e)| format!("{},{},{}", s, p, e)).collect();
+        let ds: Vec<String> =
+            ivds.iter().map(|(items, wdc, idx, data)| format!("{}:{}:{}:{}:{}", wdc, idx.len(), join(idx, ","), items, hex(data))).collect();
+        (join(&rs, ";"), ds.join("/"))
+    };
+    let mvar = match tbl(ts, b"MVAR") {
+        None => "-".to_string(),
+        Some(m) => {
+            let rec_size = u16at(m, 6) as usize;
+            let rec_count = u16at(m, 8) as usize;
+            let so = u16at(m, 10) as usize;
+            let recs: Vec<String> = (0..rec_count)
+                .map(|k| {
+                    let o = 12 + k * rec_size;
+                    format!("{},{},{}", u32at(m, o), u16at(m, o + 4), u16at(m, o + 6))
+                })
+                .collect();
+            let (mac, mregs, mivds) = read_ivs(m.get(so..)?)?;
+            let (rs, ds) = ivs_str(&mregs, &mivds);
+            format!("{}:{}#{}#{}#0", mac, rs, ds, if recs.is_empty() { "-".to_string() } else { recs.join(";") })
+        }
+    };
+    let os2 = tbl(ts, b"OS/2")?;
+    let post = tbl(ts, b"post")?;
+    let vals: Vec<i64> = FIELDS
+        .iter()
+        .enumerate()
+        .map(|(i, (tb, off))| {
+            let d: Option<&Vec<u8>> = match tb {
+                0 => Some(os2),
+                2 => Some(hhea),
+                3 => Some(post),
+                _ => None,
+            };
+            match d {
+                Some(d) if d.len() >= off + 2 => {
+                    let raw = u16at(d, *off);
+                    if i == 3 || i == 4 {
+                        raw as i64
+                    } else {
+                        raw as i16 as i64
+                    }
+                }
+                _ => 0,
+            }
+        })
+        .collect();
+    Some(C2 { ac, regions, ivds: ivds.into_iter().map(|x| x.2).collect(), vsdef, gsubrs, fds, fdsel, glyphs, hmtx, hvar, mvar, vals })
 }
 
 pub fn gen_c2f(rng: &mut Rng) -> String {
